@@ -181,6 +181,9 @@ func (c *FCtx) run(alias [2]string) {
 				v = PV{Cell: x.Cell, Path: x.Path, IsNil: x.IsNil, Typ: obj.Type()}
 			case LV:
 				off := Sym(c.freshName(n+"$off"), SInt)
+				if con.AliasSame[n+"|"+other] {
+					off = x.Off
+				}
 				ln := Sym(c.freshName(n+"$len"), SInt)
 				st.assume(And(Le(Num(0), off), Le(Num(0), ln), Le(ln, NumB(maxLen))))
 				v = LV{Cell: x.Cell, Path: x.Path, Off: off, Len: ln, Cap: ln, Elem: x.Elem, IsNil: False(), Typ: obj.Type()}
